@@ -25,7 +25,8 @@ deriving DecidableEq, Repr, Inhabited
 
 /-- One cycle of the PHY-side account; returns the data byte presented in this cycle, if any. -/
 def RxSpec.step (s : RxSpec) (p : PhyIn) (regop : Bool) : RxSpec × Option Nat :=
-  if !p.dir then ({ s with prevDir := false, act := false, just := false }, none)
+  if !p.dir then
+    ({ s with prevDir := false, act := false, just := false, legal := s.legal && !(s.prevDir && p.nxt) }, none)
   else if !s.prevDir then ({ s with prevDir := true, act := p.nxt, just := false }, none)
   else if p.nxt then
     if s.act && !s.just then ({ s with just := false }, some p.data)
